@@ -72,8 +72,22 @@ class MiniWalker(urwid.ListWalker):
         self._modified()
 
 
+class EqIcon(urwid.SelectableIcon):
+    """rows that sort by a priority and therefore compare equal to each other (the hash stays the identity)"""
+
+    def __eq__(self, other):
+        return isinstance(other, EqIcon)
+
+    def __lt__(self, other):
+        return False
+
+    __hash__ = object.__hash__
+
+
 def mk(kind, label):
     L = label
+    if kind == "Q1":
+        return EqIcon(L + "0", 0)
     if kind == "T1":
         return urwid.Text(L + "0")
     if kind == "T3":
@@ -113,7 +127,12 @@ class LState:
         else:
             self.walker = MiniWalker(self.items)
         self.wkind = wkind
-        self.lb = urwid.ListBox(self.walker)
+        if wkind == "gen":
+            # the items handed to the constructor as a one-shot iterable ("a ListWalker or an iterable of widgets")
+            self.lb = urwid.ListBox(w for w in self.items)
+            self.walker = self.lb.body
+        else:
+            self.lb = urwid.ListBox(self.walker)
         self.size = size
 
     def body(self):
@@ -230,6 +249,8 @@ class Spec:
         def V(clause, detail, extra=""):
             ctx.violation(clause, f"C07/{clause}/after-{feat}/{kinds}{extra}", case, detail)
 
+        if not hist and [id(w) for w in body] != [id(w) for w in st.items]:
+            V("slice", f"a ListBox built from {len(st.items)} widgets ({st.wkind}) holds {len(body)} of them", "/construction")
         env_ok = True
         try:
             with watchdog(5):
@@ -443,7 +464,7 @@ def run(tier, R):
     lists = []
     for L in range(0, 3 if quick else 4):
         lists += list(itertools.product(KINDS, repeat=L))
-    lists += [("T1", "S1", "T3"), ("E5", "S1", "E2"), ("T3", "T3", "S1", "T1"), ("S1", "Z0", "S1"), ("E2", "T3", "E5", "S1", "T1"), ("C3", "S1", "C3")]
+    lists += [("Q1", "Q1"), ("Q1", "T1", "Q1"), ("T1", "S1", "T3"), ("E5", "S1", "E2"), ("T3", "T3", "S1", "T1"), ("S1", "Z0", "S1"), ("E2", "T3", "E5", "S1", "T1"), ("C3", "S1", "C3")]
     seen = set()
     for kl in lists:
         if kl in seen:
@@ -454,6 +475,8 @@ def run(tier, R):
                 continue
             for size in ((W, 1), (W, 3)) if quick else SIZES:
                 cfgs.append((wk, kl, size))
+        if len(kl) in (1, 3):
+            cfgs.append(("gen", kl, (W, 3)))
     SEQ_DEPTH[1] = tier
     if quick:
         SEQ_DEPTH[0] = 0  # (un-rendered pairs as the first step; one step deeper only the (set_focus, delete) pairs)
